@@ -131,6 +131,10 @@ def recording_mp(rec, queue_script=None):
             rec.ops.append(("is_set",))
             return self.flag
 
+        def clear(self):
+            rec.ops.append(("clear",))
+            self.flag = False
+
     class P:
         def __init__(self, target=None, args=(), kwargs=None, **kw):
             self.wid = len(rec.procs)
@@ -152,6 +156,18 @@ def recording_mp(rec, queue_script=None):
         def is_alive(self):
             rec.ops.append(("is_alive", self.wid))
             return getattr(rec, "alive_of", {}).get(self.wid, rec.alive_value)
+
+        pid = property(lambda self: 1000 + self.wid)
+        name = property(lambda self: "w%d" % self.wid)
+        sentinel = property(lambda self: self)
+
+        def terminate(self):
+            rec.ops.append(("terminate", self.wid))
+
+        kill = terminate
+
+        def close(self):
+            rec.ops.append(("pclose", self.wid))
 
     return types.SimpleNamespace(Queue=Q, Event=E, Process=P)
 
@@ -561,6 +577,8 @@ def stage_ts(script, table, n_workers, fault=False, detects=True, full=None):
             # reading the exit code of a joined worker: a failure becomes visible (the producer raises)
             ts.t("exitcode w%d" % w, "main", at,
                  (lambda pc, w: (lambda s: {"pc": bmc.bv(pc + 1, 8), "raised": z3.If(z3.And(s["ws%d" % w] == W_DEAD, s["pr%d" % w] == 0), bmc.bv(1 if detects else 0, 1), s["raised"])}))(pc, w))
+        elif kind in ("clear", "terminate"):
+            raise HarnessError("the producer calls Event.clear() / Process.terminate(): not modelled")
         else:   # close, is_alive, anything without effect on the model
             ts.t(kind, "main", at, nxt)
     ts.end_pc = end
@@ -875,10 +893,12 @@ def sched_mp(S):
             def body():
                 S.local.name = self.name
                 try:
-                    self.target(*self.args)
+                    self.target(*self.args, **self.kwargs)
                     self.exitcode = 0
                 except Killed:
                     return
+                except SystemExit as e:
+                    self.exitcode = e.code if isinstance(e.code, int) else (0 if e.code is None else 1)
                 except BaseException:
                     self.exitcode = 1          # an exception in the worker kills the process
                 finally:
@@ -891,6 +911,17 @@ def sched_mp(S):
 
         def is_alive(self):
             return not self.exited
+
+        pid = property(lambda self: 1000 + int(self.name[1:]))
+        sentinel = property(lambda self: self)
+
+        def terminate(self):
+            raise HarnessError("Process.terminate() is not modelled by the replay scheduler")
+
+        kill = terminate
+
+        def close(self):
+            pass
 
     return types.SimpleNamespace(Queue=Q, Event=E, Process=P), state
 
